@@ -347,3 +347,34 @@ package multiparty
 //@ fieldorder ShamirSecretShare
 //@   property C08
 //
+
+// ---- relinearisation key, round one (property C14): what the digit loops start from.  A PREFIX
+// ---- contract (upto firstloop): when the loops over the gadget digits start, the buffer holds the
+// ---- secret-key term (P*s_i, or s_i without auxiliary modulus) in the NTT domain and OUT of the
+// ---- Montgomery domain - it is added coefficient by coefficient to a fresh error, which is not in
+// ---- Montgomery form - and the ephemeral secret u_i is in NTT and Montgomery form, with and without P
+//@ afunc RelinearizationKeyGenProtocol.GenShareRoundOne#prefix
+//@   property C14
+//@   upto firstloop
+//@   case len(shareOut.Value[0][0][0].P.Coeffs) == 0 ; set ekg.params.ringP = nil
+//@   case len(shareOut.Value[0][0][0].P.Coeffs) >= 1
+//@   requires isntt(sk.Value.Q) && mexp(sk.Value.Q) == 1
+//@   requires len(shareOut.Value) >= 1 && len(shareOut.Value[0]) >= 1 && len(shareOut.Value[0][0][0].Q.Coeffs) >= 1
+//@   ensures isntt(ekg.buf[0].Q) && mexp(ekg.buf[0].Q) == 0
+//@   ensures implies(len(shareOut.Value[0][0][0].P.Coeffs) == 0, val(ekg.buf[0].Q) == old(val(sk.Value.Q)))
+//@   ensures isntt(ephSkOut.Value.Q) && mexp(ephSkOut.Value.Q) == 1
+
+// ---- evaluation-key share (property C14), the same PREFIX contract: here the fresh error IS put in
+// ---- Montgomery form before the secret-key term is added, so the buffer keeps the key's Montgomery form
+//@ afunc EvaluationKeyGenProtocol.GenShare#prefix
+//@   property C14
+//@   upto firstloop
+//@   case len(shareOut.Value[0][0][0].P.Coeffs) == 0 ; set evkg.params.ringP = nil
+//@   case len(shareOut.Value[0][0][0].P.Coeffs) >= 1
+//@   requires isntt(skIn.Value.Q) && mexp(skIn.Value.Q) == 1
+//@   requires len(shareOut.Value) >= 1 && len(shareOut.Value[0]) >= 1 && len(shareOut.Value[0][0][0].Q.Coeffs) >= 1
+//@   ensures isntt(evkg.buff[0].Q) && mexp(evkg.buff[0].Q) == 1
+//@   ensures implies(len(shareOut.Value[0][0][0].P.Coeffs) == 0, val(evkg.buff[0].Q) == old(val(skIn.Value.Q)))
+//@ afunc EvaluationKeyGenCRP.BaseTwoDecompositionVectorSize
+//@   trusted opaque at the abstract level: a new slice with the number of power-of-two digits of every RNS component (reads only)
+//@   assigns
